@@ -292,11 +292,15 @@ class Registry(asset.Registry, alias='posix'):
         release = package.manifest.version
         path = self._path.package(project, release)
         path.parent.mkdir(parents=True, exist_ok=True)
+        # build the package under a temporary sibling name and rename it into place, so that an interrupted
+        # push never leaves a listed release with a partial package
+        staged = path.with_name(f'{path.name}.{uuid.uuid4()}.tmp')
         if package.path.is_dir():
-            shutil.copytree(package.path, path, ignore=lambda *_: {'__pycache__'})
+            shutil.copytree(package.path, staged, ignore=lambda *_: {'__pycache__'})
         else:
             assert package.path.is_file(), 'Expecting file package'
-            path.write_bytes(package.path.read_bytes())
+            staged.write_bytes(package.path.read_bytes())
+        staged.rename(path)
 
     def read(
         self,
